@@ -543,7 +543,13 @@ def c02_predefined(ctx):
     cfg_constants(ctx)
 
 
-RULES = [c02_predefined, c02_1, c02_2, c02_3, c02_4, c02_5, c02_6, c02_macro_sizes, c02_zone_of_line]
+def c02_state(ctx):
+    """Per-statement / per-lookup properties presuppose that nothing is remembered between statements beyond the reviewed state."""
+    from rules.shared import state_discipline
+    state_discipline(ctx, ('bespokeasm.assembler.line_object', 'bespokeasm.assembler.label_scope', 'bespokeasm.assembler.memory_zone', 'bespokeasm.assembler.engine', 'bespokeasm.assembler.assembly_file', 'bespokeasm.assembler.bytecode.assembled', 'bespokeasm.assembler.bytecode.parts'))
+
+
+RULES = [c02_predefined, c02_1, c02_2, c02_3, c02_4, c02_5, c02_6, c02_macro_sizes, c02_zone_of_line, c02_state]
 
 _E = 'assembler/engine.py'
 _FD = 'assembler/line_object/directive_line/fill_data.py'
